@@ -77,10 +77,10 @@ def fn(name, impl=IMPL, **kw):
 
 
 FNS = [
-    fn("available_elements_count", impl=IMPL_PUB, props=["C02", "C15", "C16", "C03", "C05"], kind="helper",
+    fn("available_elements_count", impl=IMPL_PUB, props=["C02", "C15", "C16", "C03", "C05", "C18"], kind="helper",
        sig="pub fn available_elements_count(&self) -> (r: usize)", sig_anchor=r"fn available_elements_count\(&self\) -> usize",
        rules=[ALIAS, DEREF_FIELD], ensures="r as int == self.len()"),
-    fn("leak_slot_internal", props=["C01", "C02", "C15", "C16", "C20", "C03", "C05"], attrs="#[verifier::exec_allows_no_decreases_clause]",
+    fn("leak_slot_internal", props=["C01", "C02", "C15", "C16", "C20", "C03", "C05", "C18"], attrs="#[verifier::exec_allows_no_decreases_clause]",
        sig="pub fn leak_slot_internal<ReportFullFn: Fn() -> bool>(&mut self, report_full_fn: ReportFullFn) -> (r: Option<(usize, u32, u32)>)",
        sig_anchor=r"pub fn leak_slot_internal\(&self, report_full_fn: impl Fn\(\) -> bool\) -> Option<\(&'a mut SlotType, u32, u32\)>",
        rules=[r for r in COMMON if r is not MUTBUF] + [MUTBUF,
@@ -91,12 +91,12 @@ FNS = [
                "   && (r matches Some((idx, id, len_before)) && id == final(self).tail && idx == id as usize % BUFFER_SIZE && len_before as int == final(self).len() && final(self).len() < BUFFER_SIZE),"
                "r is None ==> !final(self).held@ && final(self).at_release@ == final(self).at_acquire@ && (final(self).at_acquire@.1.wrapping_sub(final(self).at_acquire@.0) as int) >= BUFFER_SIZE",
        loops={0: "invariant !self.held@, " + NO_RETRY + ","}),
-    fn("publish_leaked_internal", props=["C01", "C02", "C15", "C20", "C03", "C05"],
+    fn("publish_leaked_internal", props=["C01", "C02", "C15", "C20", "C03", "C05", "C18"],
        sig="pub fn publish_leaked_internal(&mut self)", sig_anchor=r"pub fn publish_leaked_internal\(&self\)",
        rules=COMMON[1:] + [LK1],
        requires="old(self).held@, old(self).wf(), old(self).len() < BUFFER_SIZE, old(self).written@",
        ensures="!final(self).held@, final(self).at_release@ == (old(self).head, old(self).tail.wrapping_add(1)), final(self).at_acquire == old(self).at_acquire, final(self).head == old(self).head, final(self).tail == old(self).tail.wrapping_add(1)"),
-    fn("consume_leaking_internal", props=["C01", "C02", "C15", "C03", "C05"], attrs="#[verifier::exec_allows_no_decreases_clause]",
+    fn("consume_leaking_internal", props=["C01", "C02", "C15", "C03", "C05", "C18"], attrs="#[verifier::exec_allows_no_decreases_clause]",
        sig="pub fn consume_leaking_internal<ReportEmptyFn: Fn() -> bool>(&mut self, report_empty_fn: ReportEmptyFn) -> (r: Option<(usize, i32)>)",
        sig_anchor=r"fn consume_leaking_internal\(&self, report_empty_fn: impl Fn\(\) -> bool\) -> Option<\(&'a mut SlotType, i32\)>",
        rules=[r for r in COMMON if r is not MUTBUF] + [MUTBUF,
@@ -107,13 +107,13 @@ FNS = [
                "   && (r matches Some((idx, len_before)) && idx == final(self).head as usize % BUFFER_SIZE && len_before as int == final(self).len() && final(self).len() > 0),"
                "r is None ==> !final(self).held@ && final(self).at_release@ == final(self).at_acquire@ && final(self).at_acquire@.1 == final(self).at_acquire@.0",
        loops={0: "invariant !self.held@, " + NO_RETRY_E + ","}),
-    fn("release_leaked_internal", props=["C01", "C02", "C15", "C03", "C05"],
+    fn("release_leaked_internal", props=["C01", "C02", "C15", "C03", "C05", "C18"],
        sig="pub fn release_leaked_internal(&mut self)", sig_anchor=r"fn release_leaked_internal\(&self\)",
        rules=COMMON[1:] + [LK1],
        requires="old(self).held@, old(self).wf(), old(self).len() > 0, old(self).moved_out@",
        ensures="final(self).held@, final(self).wf(), final(self).head == old(self).head.wrapping_add(1), final(self).tail == old(self).tail, final(self).at_acquire == old(self).at_acquire"),
     # C01/C02 mod LK: one publish = the FIFO push on the state found at acquisition; payload written under the lock, before the tail moves
-    fn("publish_movable", impl=IMPL_PUB, props=["C01", "C02", "C16", "C15", "C13", "C03", "C05"],
+    fn("publish_movable", impl=IMPL_PUB, props=["C01", "C02", "C16", "C15", "C13", "C03", "C05", "C18"],
        sig="pub fn publish_movable(&mut self, item: u64) -> (r: (Option<NonZeroU32>, Option<u64>))",
        sig_anchor=r"fn publish_movable\(&self, item: SlotType\) -> \(Option<NonZeroU32>, Option<SlotType>\)",
        rules=[CLOSURE_FALSE, Rule("R7-write", r"unsafe \{ ptr::write\(slot, item\); \}", "self.slot_write(slot);", count=1, note="ptr::write -> slot_write (ghost: written under the lock)")],
@@ -122,7 +122,7 @@ FNS = [
                "r.0 is Some ==> r.1 is None && final(self).at_release@ == (final(self).at_acquire@.0, final(self).at_acquire@.1.wrapping_add(1))"
                "   && r.0.unwrap().get() as int == (final(self).at_acquire@.1.wrapping_sub(final(self).at_acquire@.0) as int) + 1,"
                "r.0 is None ==> r.1 == Some(item) && final(self).at_release@ == final(self).at_acquire@ && (final(self).at_acquire@.1.wrapping_sub(final(self).at_acquire@.0) as int) >= BUFFER_SIZE"),
-    fn("consume_movable", impl=IMPL_SUB, props=["C01", "C02", "C05", "C13", "C03"],
+    fn("consume_movable", impl=IMPL_SUB, props=["C01", "C02", "C05", "C13", "C03", "C18"],
        sig="pub fn consume_movable(&mut self) -> (r: Option<u64>)", sig_anchor=r"fn consume_movable\(&self\) -> Option<SlotType>",
        rules=[CLOSURE_FALSE, UNLOCK,
               Rule("R7-read", r"unsafe \{ Some\(ptr::read\(slot_ref\)\) \}", "{ self.slot_read(slot_ref); Some(0u64) }", count=1, note="ptr::read -> slot_read (ghost: moved out under the lock); the value itself is decided by back end K")],
